@@ -51,8 +51,22 @@ pub fn flush() {
     buf.clear();
 }
 
+/// flush unless the log is locked by a thread that is stuck (used by the watchdog)
+pub fn try_flush() {
+    let _b = Bypass::new();
+    if let Ok(mut l) = LOG.try_lock() {
+        let Log { buf, out, .. } = &mut *l;
+        if let Some(f) = out {
+            let _ = f.write_all(buf.as_bytes());
+            let _ = f.flush();
+        }
+        buf.clear();
+    }
+}
+
 /// Append one event line (`body` is the JSON object without braces).
 pub fn emit(body: &str) {
+    crate::watchdog::tick();
     let _b = Bypass::new();
     let mut l = match LOG.lock() {
         Ok(l) => l,
